@@ -1,7 +1,7 @@
 """C13 - never more live connection tokens than max_conns; freed slots wake waiters."""
 from fvgen import case, parse_case, parse_out
 
-RULE = ("tok_run: limits 1..4, random histories (length 4..60) of get_token on the runner or a clone, poll, drop-token, drop-pending-request, "
+RULE = ("tok_run: limits 1..4, random histories (length 4..60) of get_token on the runner or a clone, poll, drop-token, drop-pending-request, hand-token-to-Token::run-on-an-idle-connection, "
         "single-threaded at the granularity of those operations, one counting waker per request; directed histories: k releases in a row with "
         ">= k waiters queued, cancellation of a notified waiter, barging by a fresh request. Oracle: live tokens <= limit at every step, a first "
         "poll with a free slot is Ready, and whenever a slot is free while registered requests are pending at least one pending request has been "
@@ -25,9 +25,12 @@ def gen_ops(rng, maxc, n):
             i = rng.choice(pend)
             ops += [2, i]
             state[i] = "pending"     # may have become live; the oracle tracks the truth from the observation
-        elif r < 0.88 and state:
+        elif r < 0.80 and state:
             i = rng.choice(list(state))
             ops += [3, i]
+        elif r < 0.90 and state:
+            # hand the token (if request i has one) to Token::run on an idle connection: it stays in use
+            ops += [5, rng.choice(list(state))]
         elif pend:
             i = rng.choice(pend)
             ops += [4, i]
@@ -53,6 +56,15 @@ def gen_cases(rng, tier):
             # cancellation of the notified waiter
             ops2 = list(ops[:2 * 2 * (maxc + waiters)]) + [3, 0, 4, maxc] + [2, maxc + 1] * (1 if waiters > 1 else 0)
             yield case("tok_run", [maxc], ops2), ["tokens", "directed", "cancel", "waited"]
+    # directed: every slot is taken by a connection that is being served (token inside Token::run, transport idle); a further request
+    # must wait until one of those connections ends
+    for maxc in (1, 2, 3, 4):
+        ops = []
+        for i in range(maxc):
+            ops += [1, rng.choice([0, 1]), 2, i, 5, i]
+        ops += [1, 0, 2, maxc, 2, maxc, 1, 1, 2, maxc + 1]
+        ops += [3, 0, 2, maxc, 2, maxc + 1]
+        yield case("tok_run", [maxc], ops), ["tokens", "directed", "served", "waited"]
     for _ in range(1500 if quick else 100000):
         maxc = rng.choice([1, 1, 2, 3, 4])
         ops = gen_ops(rng, maxc, rng.randrange(4, 60))
@@ -64,13 +76,13 @@ def nontrivial(line, tags):
 
 
 def min_classes(tier):
-    return {"directed": 30, "cancel": 16, "random": 1000}
+    return {"directed": 30, "cancel": 16, "random": 1000, "served": 4}
 
 
 def oracle(line, impl_line):
     mode, a = parse_case(line)
     o = parse_out(impl_line)
-    if o is None or o == [[888888]]:
+    if o is None or o == [[18446744073710440504]]:
         return "crashed or panicked (the harness asserts live tokens <= max_conns)"
     maxc = max(1, a[0][0])
     ops = a[1] if len(a) > 1 else []
